@@ -387,3 +387,33 @@ func (d *instDriver) record(sender gpbft.ActorID, round uint64, phase gpbft.Phas
 }
 
 func ckey(c *gpbft.ECChain) string { k := c.Key(); return string(k[:]) }
+
+// a validly signed message of a committee member whose supplemental data differs from the instance's (other
+// commitments): it passes message validation (which cannot know the instance's supplemental data) and must be refused
+// by the instance without any effect.  Returns true if the participant ACCEPTED it.
+func (d *instDriver) deliverForeignSupp(sender gpbft.ActorID, round uint64, phase gpbft.Phase, value *gpbft.ECChain, jround uint64, jphase gpbft.Phase) bool {
+	saved := d.supp
+	alt := d.supp
+	alt.Commitments[7] ^= 0x5a
+	d.supp = alt
+	just := d.justify(jround, jphase, value)
+	mb := &gpbft.MessageBuilder{NetworkName: verifNet, PowerTable: d.pt,
+		Payload: gpbft.Payload{Instance: 0, Round: round, Phase: phase, SupplementalData: alt, Value: value}, Justification: just}
+	d.supp = saved
+	msg, err := mb.Build(d.ctx, d.backend, sender)
+	if err != nil {
+		return false
+	}
+	vm, err := d.p.ValidateMessage(d.ctx, msg)
+	if err != nil {
+		return false
+	}
+	nOuts := len(d.host.outs)
+	before := d.p.Progress().Instant
+	rerr := d.p.ReceiveMessage(d.ctx, vm)
+	if rerr == nil || len(d.host.outs) != nOuts || d.p.Progress().Instant != before {
+		d.desc = append(d.desc, fmt.Sprintf("FOREIGN-SUPPLEMENTAL %s from %d ACCEPTED (err=%v)", phase, sender, rerr))
+		return true
+	}
+	return false
+}
